@@ -1053,6 +1053,14 @@ func (masqComp) Gen(r *vh.RNG, n int, emit func(op string, tags ...string)) {
 			if tag == "shape:accepted" && awOddHeaders[s.odd].auth != nil {
 				s.odd = 1 + r.Intn(12) // keep the accepted credentials: odd Hysteria-CC-RX only
 			}
+			// An ACCEPTED request that declares a receive rate at or beyond 2^64-1 (strconv.ParseUint returns MaxUint64
+			// together with its range error, which the server ignores) makes the server pace that client's own
+			// connection with Brutal at 2^64-1 B/s; its later replies then stall now and then (noticed as D17,
+			// DESIGN 0.3 — outside C02). Such a stall shows up here as a 4 s read timeout, which says nothing about
+			// masquerading, so accepted requests keep away from these three shapes (rejected ones still draw them).
+			if strings.HasPrefix(s.authString(), "ok") && (s.odd == 5 || s.odd == 10 || s.odd == 12) {
+				s.odd = []int{1, 2, 3, 4, 6, 7, 8, 9, 11}[r.Intn(9)]
+			}
 			tags = append(tags, "oddhdr", fmt.Sprintf("oddhdr:%d", s.odd))
 		}
 		return s, tags
